@@ -27,6 +27,7 @@ def sizes(tier):
     return {"evolutions": 160, "steps": 3, "malformed": 40, "per_shard": 40}
 
 
+@vflib.serialized("run_m1")
 def run_m1(tier, seed, chk=None):
     """returns dict(rows, mismatches {case_idx: [subchecks]}, errors [..], meta, dir)"""
     sz = sizes(tier)
